@@ -11,6 +11,7 @@ import Driver.Media
 import Driver.Lexer
 import Driver.TagParser
 import Driver.Resolve
+import Driver.Render
 open Lean
 
 def dispatch (j : Json) : Except String Json := do
@@ -35,6 +36,8 @@ def dispatch (j : Json) : Except String Json := do
   | "parsetag" => Driver.TagParserD.handle j
   | "leaves" => Driver.ResolveD.handleLeaves j
   | "resolve" => Driver.ResolveD.handleResolve j
+  | "render" => Driver.RenderD.handle j
+  | "specrender" => Driver.RenderD.handleSpec j
   | "ping" => pure (Json.mkObj [("pong", Json.bool true)])
   | _ => throw s!"unknown op {op}"
 
